@@ -32,7 +32,7 @@ where
     let weights: Vec<T> = w.iter().map(|x| T::from(*x as f64 * scale).unwrap()).collect();
     let is32 = std::mem::size_of::<T>() == 4;
     let margin = if is32 { 2f64.powi(-14) } else { 2f64.powi(-20) };
-    let mut push = |acc: &mut Acc, what: &str, r: f64, got: Value, allowed: &Vec<usize>| {
+    let push = |acc: &mut Acc, what: &str, r: f64, got: Value, allowed: &Vec<usize>| {
         if acc.bad.len() < 30 {
             acc.bad.push(json!({"w": w, "scale": scale, "type": tname, "class": what, "r": r, "returned_index0": got, "allowed_index1": allowed}));
         }
